@@ -10,11 +10,11 @@ Local Open Scope Z_scope.
 Lemma tie_score (cfgs : C09_Auction.bconfs) (b : C09_Auction.bid) :
   let c := C09_Auction.conf_of cfgs b in
   C09_Auction.score cfgs b =
-  builderbid_score (Z.of_N (C09_Auction.b_value b))
+  builderbid_score (match C09_Auction.bc_factor c with Some f => f | None => 0 end)
+                   (match C09_Auction.bc_factor c with Some _ => true | None => false end)
                    (match C09_Auction.bc_offset c with Some _ => true | None => false end)
                    (match C09_Auction.bc_offset c with Some o => o | None => 0 end)
-                   (match C09_Auction.bc_factor c with Some _ => true | None => false end)
-                   (match C09_Auction.bc_factor c with Some f => f | None => 0 end).
+                   (Z.of_N (C09_Auction.b_value b)).
 Proof.
   cbv zeta. unfold C09_Auction.score, builderbid_score.
   destruct (C09_Auction.bc_offset (C09_Auction.conf_of cfgs b)) as [o|];
@@ -24,5 +24,5 @@ Qed.
 
 (* the deadline strategy has its own copy of the computation: same transcription *)
 
-Lemma tie_score_deadline : forall v ho o hf f, builderbid_deadline_score v ho o hf f = builderbid_score v ho o hf f.
+Lemma tie_score_deadline : forall f hf ho o v, builderbid_deadline_score f hf ho o v = builderbid_score f hf ho o v.
 Proof. reflexivity. Qed.
